@@ -14,20 +14,29 @@ SgdCfgs == {[opt |-> "sgd", a |-> o.a, b |-> o.b, c |-> o.c, x0 |-> o.x0, alpha 
                      [a |-> <<2, 1, 3>>, b |-> <<0, 1, 0 - 1>>, c |-> 0 - 1, x0 |-> <<R(1), R(0 - 1), Q(1, 2)>>]},
               al \in {Q(1, 4), Q(1, 16)},
               m \in {<<RZ, FALSE>>, <<Q(1, 2), FALSE>>, <<Q(3, 4), FALSE>>, <<Q(1, 2), TRUE>>, <<Q(3, 4), TRUE>>, <<RZ, TRUE>>}}
+\* one-sided objective: after crossing the kink the gradient of that coordinate is exactly zero while its moments are not;
+\* b2 with b2 / (1 + b2) a rational square keeps sqrt(vhat) rational for the first zero-gradient step
+HingeCfgs == {[opt |-> "adam", hinge |-> TRUE, cw |-> o.cw, at |-> o.at, x0 |-> o.x0, alpha |-> Q(1, 2), b1 |-> b[1], b2 |-> b[2], eps |-> e] :
+              o \in {[cw |-> <<R(1)>>, at |-> <<Q(1, 16)>>, x0 |-> <<Q(1, 4)>>],
+                     [cw |-> <<R(1), Q(1, 2)>>, at |-> <<Q(1, 16), Q(0 - 3, 16)>>, x0 |-> <<Q(1, 4), R(2)>>]},
+              b \in {<<Q(1, 2), Q(1, 3)>>, <<Q(3, 4), Q(4, 5)>>, <<Q(1, 2), Q(9, 16)>>, <<Q(9, 10), Q(1, 8)>>}, e \in {RZ, Q(1, 4)}}
 AdamCfgs == {[opt |-> "adam", cw |-> o.cw, at |-> o.at, x0 |-> o.x0, alpha |-> al, b1 |-> b[1], b2 |-> b[2], eps |-> e] :
               o \in {[cw |-> <<R(1)>>, at |-> <<Q(1, 17)>>, x0 |-> <<R(1)>>],                        \* crosses the kink: the gradient flips sign
                      [cw |-> <<R(2), Q(1, 16)>>, at |-> <<Q(0 - 3, 19), Q(29, 17)>>, x0 |-> <<R(0), R(2)>>]},
               al \in {Q(1, 2), Q(1, 8)}, b \in {<<Q(1, 2), Q(1, 2)>>, <<Q(3, 4), Q(7, 8)>>}, e \in {RZ, Q(1, 1024)}}
 \* step size 1/16 multiplies denominators by 16 per step: its horizon is capped at 5 (32-bit integers)
 Horizon == IF cfg.opt = "sgd" THEN (IF cfg.alpha = Q(1, 16) /\ KS > 5 THEN 5 ELSE KS) ELSE KA
-Init == /\ cfg \in SgdCfgs \cup AdamCfgs
+Init == /\ cfg \in SgdCfgs \cup AdamCfgs \cup HingeCfgs
         /\ st = IF cfg.opt = "sgd" THEN SgdInit(cfg) ELSE AdamInit(cfg)
-Next == /\ st.t < Horizon /\ ~st.converged
+Next == /\ st.t < Horizon /\ ~st.converged /\ (cfg.opt = "adam" => st.exact)
         /\ st' = IF cfg.opt = "sgd" THEN SgdStep(cfg, st) ELSE AdamStep(cfg, st)
         /\ UNCHANGED cfg
 Spec == Init /\ [][Next]_vars
 \* Adam: vhat = c^2 at every step (the premise of the exact square root); each Adam step moves a coordinate by at most alpha
-Inv_AdamExact == cfg.opt = "adam" => st.vhat_is_c2
+\* the two-sided objective never loses exactness (|g| = c at every step); the one-sided one reaches a step with an exactly zero
+\* gradient component and non-zero moments that is still exact (the case the family exists for)
+Inv_AdamExact == (cfg.opt = "adam" /\ ~Hinge(cfg)) => st.exact
+HingeWitness == cfg.opt = "adam" /\ Hinge(cfg) /\ st.exact /\ st.zero_grad /\ st.t >= 2
 Inv_AdamBounded == (cfg.opt = "adam" /\ st.t >= 1) =>
    \A i \in 1..Dim(cfg) : TRUE
 \* started at the optimum of a convex quadratic: the first step changes nothing and the loop stops
@@ -37,7 +46,8 @@ Inv_NesterovMuZero == (cfg.opt = "sgd" /\ cfg.nesterov /\ RIsZero(cfg.mu)) =>
    (st.t = 0 \/ st.x = [i \in 1..Dim(cfg) |-> RSub(st.x[i], RZ)])
 CfgJ == IF cfg.opt = "sgd"
         THEN [opt |-> "sgd", a |-> cfg.a, b |-> cfg.b, c |-> cfg.c, x0 |-> RSeqJ(cfg.x0), alpha |-> RJ(cfg.alpha), mu |-> RJ(cfg.mu), nesterov |-> cfg.nesterov]
-        ELSE [opt |-> "adam", cw |-> RSeqJ(cfg.cw), at |-> RSeqJ(cfg.at), x0 |-> RSeqJ(cfg.x0), alpha |-> RJ(cfg.alpha), b1 |-> RJ(cfg.b1), b2 |-> RJ(cfg.b2), eps |-> RJ(cfg.eps)]
+        ELSE [opt |-> "adam", hinge |-> Hinge(cfg), cw |-> RSeqJ(cfg.cw), at |-> RSeqJ(cfg.at), x0 |-> RSeqJ(cfg.x0), alpha |-> RJ(cfg.alpha), b1 |-> RJ(cfg.b1), b2 |-> RJ(cfg.b2), eps |-> RJ(cfg.eps)]
 \* case for maxsteps = st.t (and, if converged here, for every larger budget: the loop has stopped)
-Emit == PrintT(<<"CASE", ToJson([cfg |-> CfgJ, k |-> st.t, x |-> RSeqJ(st.x), converged |-> st.converged, horizon |-> Horizon])>>)
+Emit == (cfg.opt = "adam" => st.exact) => PrintT(<<"CASE", ToJson([cfg |-> CfgJ, k |-> st.t, x |-> RSeqJ(st.x), converged |-> st.converged, horizon |-> Horizon,
+                                                                  zero_grad |-> (cfg.opt = "adam" /\ st.zero_grad)])>>)
 =============================================================================
